@@ -239,6 +239,34 @@ inductive Reach (c : Cfg) : State → Prop where
   | init : Reach c (init c)
   | step {s e s'} : Reach c s → step c s e = some s' → Reach c s'
 
+/-! ### a pool of `W` workers
+
+  `TaskWorkerPool.StartWorkers` starts `W = num_workers` goroutines, each of which takes one job at a time from the channel
+  (`worker`: `case j := <-twp.jobCh: … j.fn(update) …`); a `take` therefore needs a worker that is not inside a task, i.e.
+  fewer than `W` tasks are on a worker. (The list-of-workers model `Grog.Pool` above has the worker identities; here only
+  their number matters.) Everything else is `step`. -/
+
+def TaskSt.onWorker : TaskSt → Bool
+  | .busy _ => true
+  | _ => false
+
+def TaskSt.inCommand : TaskSt → Bool
+  | .busy true => true
+  | _ => false
+
+/-- tasks currently on a worker / commands currently running, over the selected nodes (tasks exist only there:
+    `Sys.task_only_selected`) -/
+def onWorkers (c : Cfg) (s : State) : Nat := c.sel.countP (fun n => (s.task n).onWorker)
+def commands (c : Cfg) (s : State) : Nat := c.sel.countP (fun n => (s.task n).inCommand)
+
+def stepW (c : Cfg) (W : Nat) (s : State) : Ev → Option State
+  | .take n => if onWorkers c s < W then step c s (.take n) else none
+  | e => step c s e
+
+inductive ReachW (c : Cfg) (W : Nat) : State → Prop where
+  | init : ReachW c W (init c)
+  | step {s e s'} : ReachW c W s → stepW c W s e = some s' → ReachW c W s'
+
 end Grog.Sys
 
 /-
